@@ -11,7 +11,7 @@ import ast
 import hashlib
 import os
 from dataclasses import dataclass, field
-from typing import Iterator
+from typing import Iterable, Iterator
 
 
 class AnalysisError(Exception):
@@ -419,6 +419,29 @@ class SourceIndex:
         return m.assigns[name]
 
     # ------------------------------------------------------------------ hierarchy
+    def inline_module_constants(self, modname: str, expr: ast.expr, local_names: Iterable[str] = (), depth: int = 0) -> ast.expr:
+        """copy of `expr` in which every name that has exactly one module-level assignment in `modname` (and is not a local of the
+        using function, nor re-bound by a `global` statement anywhere in the module) is replaced by that assignment's value"""
+        import copy as _copy
+
+        m = self.module(modname)
+        globs = {n for x in ast.walk(m.tree) if isinstance(x, ast.Global) for n in x.names}
+        defs: dict[str, list[ast.expr]] = {}
+        for st in m.tree.body:
+            if isinstance(st, ast.Assign) and len(st.targets) == 1 and isinstance(st.targets[0], ast.Name):
+                defs.setdefault(st.targets[0].id, []).append(st.value)
+            elif isinstance(st, ast.AnnAssign) and isinstance(st.target, ast.Name) and st.value is not None:
+                defs.setdefault(st.target.id, []).append(st.value)
+        skip = set(local_names) | globs
+        outer = self
+
+        class T(ast.NodeTransformer):
+            def visit_Name(s, n: ast.Name):
+                if isinstance(n.ctx, ast.Load) and n.id not in skip and len(defs.get(n.id, [])) == 1 and depth < 4:
+                    return outer.inline_module_constants(modname, _copy.deepcopy(defs[n.id][0]), local_names, depth + 1)
+                return n
+        return ast.fix_missing_locations(T().visit(_copy.deepcopy(expr)))
+
     def mro(self, c: ClassInfo) -> list[str]:
         "C3 linearisation; classes outside the package appear by dotted name"
 
